@@ -378,6 +378,22 @@ the nearest grid value for a scaled leaf, element-wise, key-wise -/
 theorem call_denotes (dt : DType F) (hwf : dt.WF) (v r : PVal F) (h : call dt v = .ok r) : ConvDenotes dt v r :=
   call_convDenotes dt v none r hwf h
 
+/-- the conversion-only path as a whole: `dt(v)` answers with a value of the type that denotes `v`, or with a bad-value
+error - for every Python value `v` (a driver update, the result of a `read_*` method or of a command, a configured value) -/
+theorem call_ok (dt : DType F) (hwf : dt.WF) (v : PVal F) :
+    match call dt v with
+    | .ok r => ConvOK dt v (.ok r)
+    | .error .range => True
+    | .error .wrongType => True
+    | .error (.other _) => False := by
+  cases h : call dt v with
+  | ok r => exact ⟨call_ofType_sound dt hwf v r h, call_denotes dt hwf v r h⟩
+  | error e =>
+    cases e with
+    | range => trivial
+    | wrongType => trivial
+    | other c => exact call_total dt v c h
+
 /-- the result clause for whatever the command function returned -/
 theorem command_result_ok (resT : Option (DType F)) (hwf : ∀ dt, resT = some dt → dt.WF) (v r : PVal F)
     (h : commandResult resT v = .ok r) : ResultOK resT v (.ok r) := by
@@ -478,6 +494,23 @@ theorem judgeResult_sound (resT : Option (DType F)) (ret : PVal F) (out : Outcom
       · by_cases hb : convDenotesB dt ret r = true
         · exact (convDenotesB_iff dt ret r).1 hb
         · simp [hb] at h2
+
+/-- the monitor of the conversion path is sound -/
+theorem judgeConv_sound (dt : DType F) (o : PVal F) (out : Outcome F) (recall : Option (Outcome F))
+    (h : judgeConv dt o out recall = []) : ConvOK dt o out := by
+  cases out with
+  | bad => trivial
+  | other c => simp [judgeConv] at h
+  | ok r =>
+    simp only [judgeConv, List.append_eq_nil_iff] at h
+    obtain ⟨⟨h1, h2⟩, _⟩ := h
+    refine ⟨?_, ?_⟩
+    · by_cases hb : ofTypeB dt r = true
+      · exact ofTypeB_sound dt r hb
+      · simp [hb] at h1
+    · by_cases hb : convDenotesB dt o r = true
+      · exact of_decide_eq_true hb
+      · simp [hb] at h2
 
 /-! ## the refusal path: the helper that builds the text of every bad-value error of the scalar types
 
@@ -722,6 +755,26 @@ example : ((judgeResult (some exTree) exHeld (.ok exHeld) (some (.ok exHeld))).i
     (judgeResult (F := Rat) (some (.int 0 5)) (.float (7/2)) (.ok (.int 3)) (some (.ok (.int 3)))).contains "denotes:result" &&
     (judgeResult (F := Rat) (some (.string 0 10 true)) .none (.other "TypeError") none).contains "total:result" &&
     (judgeResult (F := Rat) none (.int 7) (.ok .none) none).isEmpty) = true := by
+  decide +kernel
+
+/-- the conversion path on the example: a driver update with `b = 50` is converted (`call_ok`), the monitor accepts the
+outcome and flags a truncated fraction and a value of another kind -/
+example : ∃ r, call exTree exHeld = .ok r ∧ ConvOK exTree exHeld (.ok r) := by
+  cases hc : call exTree exHeld with
+  | error e =>
+    have hb : (match call exTree exHeld with
+      | .ok _ => true
+      | _ => false) = true := by decide +kernel
+    rw [hc] at hb; cases hb
+  | ok r =>
+    have := call_ok exTree exTree_wf exHeld
+    rw [hc] at this
+    exact ⟨r, rfl, this⟩
+
+example : ((judgeConv exTree exHeld (.ok exHeld) (some (.ok exHeld))).isEmpty &&
+    (judgeConv (F := Rat) (.int 0 5) (.float (7/2)) (.ok (.int 3)) (some (.ok (.int 3)))).contains "denotes:call" &&
+    (judgeConv (F := Rat) (.int 0 5) (.str "3") (.ok (.int 3)) (some (.ok (.int 3)))).contains "denotes:call" &&
+    (judgeConv (F := Rat) (.int 0 5) (.int 3) (.ok (.str "3")) (some (.ok (.str "3")))).contains "oftype:call") = true := by
   decide +kernel
 
 /-- the helper on a `repr` that fails for big values (as `repr(int)` beyond 4300 digits): a text in every case, a cut
